@@ -749,7 +749,43 @@ def _constant_table(F, cs, fn):
     return False
 
 
-def _safe_text_atoms(F, atoms, fn):
+def _param_safe_at_callers(F, fn, pname, _d):
+    """`pname` is a parameter of a private helper and every call site in the
+    package passes safe text for it."""
+    name = fn.node.name
+    if _d > 2 or not name.startswith('_') or (
+            name.startswith('__') and name.endswith('__')):
+        return False
+    ps = Q.params(fn.node)
+    if pname not in ps:
+        return False
+    callers = Q.find_callers(F.repo, fn, by_name_ok=False)
+    if not callers:
+        return False
+    for m, c, exact in callers:
+        cf = F.repo.enclosing_func(c)
+        if cf is None:
+            return False
+        k = ps.index(pname)
+        if ps and ps[0] in ('self', 'cls') and isinstance(
+                c.func, ast.Attribute):
+            k -= 1
+        arg = Q.kwarg(c, pname)
+        if arg is None and 0 <= k < len(c.args) and not any(
+                isinstance(x, ast.Starred) for x in c.args[:k + 1]):
+            arg = c.args[k]
+        if arg is None:
+            d = Q.param_default(fn.node, pname)
+            if d is None or not isinstance(d, ast.Constant):
+                return False
+            continue
+        at = F.flow.atoms(arg, cf, None, F.flow.max_depth)
+        if _safe_text_atoms(F, at, cf, _d + 1):
+            return False
+    return True
+
+
+def _safe_text_atoms(F, atoms, fn, _d=0):
     """Every direct access path that flows into the text is a constant, the
     sanitised `.name` of a backend Variable / rule table entry / enum
     member, an indentation count, or output of a writer."""
@@ -760,6 +796,9 @@ def _safe_text_atoms(F, atoms, fn):
         if a.startswith(('const:', 'key:', 'alloc:')):
             continue
         cs = components(a)
+        if a.startswith('param:') and len(cs) == 1 and \
+                _param_safe_at_callers(F, fn, a[6:], _d):
+            continue
         if len(cs) == 1 and not a.startswith('param:'):
             try:
                 r = F.repo.resolve_symbol(fn.module.name, cs[0])
